@@ -272,8 +272,9 @@ class Run9(flat.FlatRun):
         if out[0] == 'ret':
             self.items.append(('done', cid, 0, int(bool(out[1])), 0))
             return out[1]
-        self.items.append(('done', cid, 1, out[1], out[2]))
-        raise make_exc(out[1], out[2])
+        exc = make_exc(out[1], out[2])
+        self.items.append(('done', cid, 1) + canon_exc(exc))     # builtin kinds (>= 6) are all `Other`
+        raise exc
 
     def invoke(self, model, slot, cid, *args, **kwargs):
         cmds, out = self.begin(model, slot, cid, args, kwargs)
